@@ -53,6 +53,25 @@ func weightValue(fam string, n int, rs uint64, i, j int) int64 {
 		return int64((i*7 + j*13) % 10)
 	case "const":
 		return 7
+	case "short":
+		// the weights of a distance matrix: 1..3 digits, some of them negative
+		// (1..4 characters); the large instances of volume.go
+		v := int64((i*7919 + j*104729) % 1000)
+		if (i+2*j)%5 == 0 {
+			v = -v
+		}
+		return v
+	case "huge":
+		// 19 digits, 20 characters when negative: MaxInt64 / MinInt64 themselves
+		// now and then, otherwise a little inside them
+		d := int64((i*4099 + j) % 1000003)
+		if d%1009 == 0 {
+			d = 0
+		}
+		if (i+j)%2 == 0 {
+			return math.MaxInt64 - d
+		}
+		return math.MinInt64 + d
 	case "stair":
 		// the width differs inside every column and between columns
 		d := pow10[((i-j)%19+19)%19]
